@@ -517,12 +517,14 @@ pub fn run(p: &Params) -> Report {
     // sampled mutations
     let n = p.budget(4_800, 160_000);
     for i in 0..n {
-        scenario(p.shard_seed(0x02_0000 + i), false, 24, &mut rep);
+        let seed = p.shard_seed(0x02_0000 + i);
+        crate::util::guarded(&mut rep, seed, |rep| scenario(seed, false, 24, rep));
     }
     // every single bit of a few datagrams per shard
     let m = p.budget(48, 960);
     for i in 0..m {
-        scenario(p.shard_seed(0xB1_0000 + i), true, 4000, &mut rep);
+        let seed = p.shard_seed(0xB1_0000 + i);
+        crate::util::guarded(&mut rep, seed, |rep| scenario(seed, true, 4000, rep));
     }
     rep.extra.insert("exhaustive_subspaces".into(), json!(["every single-bit flip of the datagrams selected for the exhaustive pass (one datagram kind and session state per scenario)"]));
     rep
